@@ -76,6 +76,7 @@ var validPre = []pl{
 	{`timeout:"+240"`, 0, 240}, {`timeout:"\x32\x34\x30"`, 0, 240}, {`timeout:"\062\u0030\U00000030"`, 0, 200},
 	{`foo:"bar" timeout:"200"`, 0, 200}, {`x:"a\"b"   timeout:"320"`, 0, 320}, {`timeout:"200" timeout:"1"`, 0, 200},
 	{`Timeout:"1" timeout:"240"`, 0, 240}, {`timeout:"0200"`, 0, 200}, {`T:"" timeout:"160" rest`, 0, 160},
+	{`timeout:"200" `, 0, 200}, {"timeout:\"240\"\n", 0, 240}, {"timeout:\"280\"\t\r\n ", 0, 280}, {"timeout:\"320\"\r", 0, 320},
 	{`timeout:"0"`, 0, 0}, {`timeout:"-40"`, 0, -40}, {`timeout:"-0"`, 0, 0},
 	{`timeout:"9300000000000"`, 0, 9300000000000},        // wraps to a negative Duration
 	{`timeout:"-9223372036854775808"`, 0, math.MinInt64}, // * 1e6 wraps to 0
@@ -90,10 +91,38 @@ var badPre = []string{
 	`x timeout:"200"`, `x:"1 timeout:"200"`, `timeout:"200\"`, `timeout:"\x3"`, `timeout:"\400"`, `timeout:"\ud800"`,
 	`timeout:"--5"`, `timeout:"+"`, `timeout:" 200"`, `timeout:"200 "`, "timeout:\"\xff\"", `timeout:"x" timeout:"200"`,
 	"a\x7f:\"1\" timeout:\"200\"", `timeout:"２００"`, "z", `error`, `timeout:"1e3"`, `timeout:"99999999999999999999"`,
-	"k:\"v\"\ttimeout:\"200\"", `timeout:"\'200"`,
+	"k:\"v\"\ttimeout:\"200\"", "k:\"v\"\ntimeout:\"200\"", "timeout\t:\"200\"", "timeout:\n\"200\"", `timeout:"\'200"`,
+}
+
+// JSON whitespace: padding a response with it changes neither its classification nor its content
+var jsonWS = []string{" ", "\t", "\r", "\n"}
+
+func wsRun(r *Rng, max int) string {
+	n := r.Intn(max + 1)
+	var sb strings.Builder
+	for k := 0; k < n; k++ {
+		sb.WriteString(r.Pick(jsonWS))
+	}
+	return sb.String()
 }
 
 func realPayload(r *Rng, i int) string {
+	p := realPayload0(r, i)
+	if len(p) > 0 && p[0] == '{' && r.Chance(40) {
+		// leading and/or trailing whitespace (a padded message never starts with a letter)
+		switch r.Intn(3) {
+		case 0:
+			p = wsRun(r, 3) + p
+		case 1:
+			p = p + wsRun(r, 3)
+		default:
+			p = wsRun(r, 3) + p + wsRun(r, 3)
+		}
+	}
+	return p
+}
+
+func realPayload0(r *Rng, i int) string {
 	switch r.Intn(16) {
 	case 0, 1, 2, 3:
 		return fmt.Sprintf(`{"result":{"i":%d}}`, i)
@@ -108,7 +137,7 @@ func realPayload(r *Rng, i int) string {
 	case 10:
 		return fmt.Sprintf(` {"result":%d}`, i) // leading space: not a pre-response
 	case 11:
-		return fmt.Sprintf(` timeout:"%d"`, 200+i) // leading space: not a pre-response, not JSON either
+		return r.Pick(jsonWS) + fmt.Sprintf(`timeout:"%d"`, 200+i) // leading whitespace: not a pre-response, not JSON either
 	case 12:
 		return fmt.Sprintf(`{"result":%d,"error":{"code":"a.b","message":"both %d"}}`, i, i)
 	case 13:
@@ -693,21 +722,67 @@ func reqValue(kind string, d *desc) interface{} {
 	return nil
 }
 
-func summary(r resprot.Response) string {
+func summaryOf(result []byte, resource string, hasErr bool, code, msg string, data interface{}, coarse bool) string {
 	var sb strings.Builder
-	if r.Result == nil {
+	if result == nil {
 		sb.WriteString("R<nil>")
 	} else {
-		sb.WriteString("R:" + string(r.Result))
+		sb.WriteString("R:" + string(result))
 	}
-	sb.WriteString("|S:" + string(r.Resource))
-	if r.Error == nil {
+	sb.WriteString("|S:" + resource)
+	if !hasErr {
 		sb.WriteString("|E<nil>")
 	} else {
-		dt, _ := json.Marshal(r.Error.Data)
-		sb.WriteString("|E:" + r.Error.Code + "|" + r.Error.Message + "|" + string(dt))
+		if coarse && code == res.CodeInternalError {
+			msg = "*"
+		}
+		dt, _ := json.Marshal(data)
+		sb.WriteString("|E:" + code + "|" + msg + "|" + string(dt))
 	}
 	return sb.String()
+}
+
+func summary(r resprot.Response, coarse bool) string {
+	if r.Error == nil {
+		return summaryOf(r.Result, string(r.Resource), false, "", "", nil, coarse)
+	}
+	return summaryOf(r.Result, string(r.Resource), true, r.Error.Code, r.Error.Message, r.Error.Data, coarse)
+}
+
+// refParse is the harness' own reference for "the parsed message": encoding/json into a struct
+// of its own plus the protocol rule that one of result / resource / error must be present.
+// It does not call resprot.ParseResponse.  An invalid response is summarised coarsely
+// (code only), a valid one in full.
+type refError struct {
+	Code    string      `json:"code"`
+	Message string      `json:"message"`
+	Data    interface{} `json:"data,omitempty"`
+}
+type refResponse struct {
+	Result   json.RawMessage `json:"result"`
+	Resource struct {
+		RID string `json:"rid"`
+	} `json:"resource"`
+	Error *refError `json:"error"`
+}
+
+func refParse(data []byte) string {
+	var r refResponse
+	invalid := len(data) == 0
+	if !invalid {
+		if err := json.Unmarshal(data, &r); err != nil {
+			invalid = true
+		} else if r.Error == nil && r.Resource.RID == "" && r.Result == nil {
+			invalid = true
+		}
+	}
+	if invalid {
+		return summaryOf(r.Result, r.Resource.RID, true, "system.internalError", "*", nil, true)
+	}
+	if r.Error != nil {
+		return summaryOf(r.Result, r.Resource.RID, true, r.Error.Code, r.Error.Message, r.Error.Data, false)
+	}
+	return summaryOf(r.Result, r.Resource.RID, false, "", "", nil, false)
 }
 
 type cbRec struct {
@@ -930,7 +1005,7 @@ func runOne(e *env, d *desc) (Case, []ImplViolation) {
 		arrT = append(arrT, "("+Z(int(dur(a.AtMs)))+","+B(string(a.Payload))+")")
 		if !seenP[string(a.Payload)] {
 			seenP[string(a.Payload)] = true
-			parseT = append(parseT, "("+B(string(a.Payload))+","+B(summary(resprot.ParseResponse(a.Payload)))+")")
+			parseT = append(parseT, "("+B(string(a.Payload))+","+B(refParse(a.Payload))+")")
 		}
 	}
 	var cbT []string
@@ -947,9 +1022,9 @@ func runOne(e *env, d *desc) (Case, []ImplViolation) {
 		dd.Arr = arr
 	}
 	cs.Desc = dd
-	cs.Term = fmt.Sprintf("CC %s %s %s %s %s %s %s %s %s %s %s %s %s",
+	cs.Term = fmt.Sprintf("CC %s %s %s %s %s %s %s %s %s %s %s %s %s %s",
 		Nat(d.Ncb), failTerm(d, marshalErr, c.lastErr), Z(int(dur(d.TimeoutMs))), List(arrT), List(parseT),
-		B(summary(got.r)), List(cbT), Bool(subscribed), Bool(published), Bool(released), N(live), Z(int(dur(elapsedMs))), Bool(pubok))
+		B(summary(got.r, false)), B(summary(got.r, true)), List(cbT), Bool(subscribed), Bool(published), Bool(released), N(live), Z(int(dur(elapsedMs))), Bool(pubok))
 	kb, _ := json.Marshal(struct {
 		M, F, R string
 		N       int
@@ -1255,6 +1330,32 @@ func main() {
 			{Mode: "scripted", Req: "nil", Ncb: 1, TimeoutMs: 200, Plan: "late", Arr: []arrival{{AtMs: 40, Payload: []byte(`timeout:"abc"`)}, {AtMs: 320, Payload: []byte(`{"result":4}`)}}},
 			{Mode: "scripted", Req: "nil", Ncb: 1, TimeoutMs: 200, Plan: "answer", Arr: []arrival{{AtMs: 40, Payload: []byte(`{"result":5}`)}, {AtMs: 40, Payload: []byte(`{"result":6}`)}}},
 		}
+		// every JSON whitespace byte (and all four together) before, after and around each kind of
+		// response, directly and after a timeout pre-response
+		for wi, ws := range append(append([]string{}, jsonWS...), " \t\r\n", "\n\n  ") {
+			for ki, body := range []string{`{"result":{"w":%d}}`, `{"resource":{"rid":"test.ws.%d"}}`, `{"error":{"code":"test.ws","message":"ws %d"}}`} {
+				for pos := 0; pos < 3; pos++ {
+					n := wi*9 + ki*3 + pos
+					p := fmt.Sprintf(body, n)
+					switch pos {
+					case 0:
+						p = ws + p
+					case 1:
+						p = p + ws
+					default:
+						p = ws + p + ws
+					}
+					d := &desc{Mode: "scripted", Req: "nil", Ncb: 1, TimeoutMs: 200, Plan: "answer"}
+					if n%2 == 0 {
+						d.Arr = []arrival{{AtMs: 40, Payload: []byte(p)}}
+					} else {
+						d.Arr = []arrival{{AtMs: 40, Payload: []byte("timeout:\"320\"" + ws)}, {AtMs: 240, Payload: []byte(p)}}
+					}
+					dist["fixed:whitespace-padded"]++
+					fixed = append(fixed, d)
+				}
+			}
+		}
 		for _, d := range fixed {
 			id++
 			d.ID = id
@@ -1368,6 +1469,6 @@ func main() {
 	}
 	dist["nontrivial"] = nontriv
 	Emit(o, "C19", "From GoRes Require Import Run.Run_C19.", "ccase",
-		"SendRequest against a scripted res.Conn over an embedded nats-server: 0-6 arrivals on a 40 ms grid mixing valid timeout pre-responses (incl. escapes, signs, int64 wrap-around, several tags), pre-responses without effect, result/resource/error responses and garbage; failing marshal/subscribe/publish, each with every kind of error value (plain, wrapped, nats sentinel, *res.Error with its own code incl. system.timeout, with Data, nil *res.Error, wrapper around a *res.Error; marshal through a failing MarshalJSON); plus arrivals sent through the server and a real res.Service playing handler scripts (many more in thorough), including long histories on both real-NATS legs: 0..100 (thorough ..300) timeout pre-responses 4 ms apart before the response, around every power of two and the inbox capacity 32, and back-to-back bursts up to that capacity; every timer-vs-message decision >= 120 ms from a tie; non-trivial = a failing step or at least one pre-response in the script; distinct by script",
+		"SendRequest against a scripted res.Conn over an embedded nats-server: 0-6 arrivals on a 40 ms grid mixing valid timeout pre-responses (incl. escapes, signs, int64 wrap-around, several tags), pre-responses without effect, result/resource/error responses (also padded with leading/trailing JSON whitespace: every whitespace byte and combinations, directly and after a pre-response) and garbage; failing marshal/subscribe/publish, each with every kind of error value (plain, wrapped, nats sentinel, *res.Error with its own code incl. system.timeout, with Data, nil *res.Error, wrapper around a *res.Error; marshal through a failing MarshalJSON); plus arrivals sent through the server and a real res.Service playing handler scripts (many more in thorough), including long histories on both real-NATS legs: 0..100 (thorough ..300) timeout pre-responses 4 ms apart before the response, around every power of two and the inbox capacity 32, and back-to-back bursts up to that capacity; every timer-vs-message decision >= 120 ms from a tie; non-trivial = a failing step or at least one pre-response in the script; distinct by script",
 		cases, dist, extra, impl, 100)
 }
